@@ -28,7 +28,7 @@ TDeliver == Ev("deliver") /\ m' = IF "inj" \in DOMAIN e THEN Void(Deliver(m, e.f
                                    ELSE Deliver(m, e.from, e.frame, e.res, e.fresh)
 TLose == Ev("lose") /\ m' = m
 TAck == Ev("ack") /\ m' = m
-TFinal == Ev("final") /\ m' = Final(m, e.side, e.sid, e.written, e.peer_read, e.flushed, e.peer_has_reader, e.quiescent, e.dead)
+TFinal == Ev("final") /\ m' = Final(m, e.side, e.sid, e.written, e.peer_read, e.flushed, e.parked, e.peer_has_reader, e.quiescent, e.dead)
 
 \* Known deviation StaleLossPanicsAfter0RttRejection: the frames of a rejected 0-RTT flight stay in the sent
 \* journal; when loss detection reports them, the send buffers (whose state was forgotten) hit a debug assertion
